@@ -40,13 +40,15 @@ structure CallCase where
   pathDot       : Bool          -- some path-bound value prints as "." or ".."
   requiredZero  : List Bool     -- per REQUIRED query-annotated field: is its value the kind's zero value?
   negZeroQuery  : Bool := false -- some query-bound float field holds -0.0 (compares equal to the zero literal)
+  respEmpty     : Bool := false -- the handler's response has no populated field: zero bytes in binary, and the emitted
+                                -- client's `unmarshalResponse` returns before any codec on an empty body (`len(body) == 0`)
 deriving Repr
 
 /-- outcome class of the call: "ok" or the name of the reason it cannot round-trip. -/
 def callOutcome (c : CallCase) : String :=
   let bodyVerb := Gen.Pipeline.bodyVerbs.contains c.verb
   if bodyVerb && clientReqCodec c.ct != serverReqCodec c.ct then "content_type_codec_mismatch"
-  else if clientRespCodec c.ct != serverRespCodec c.ct then "content_type_codec_mismatch"
+  else if clientRespCodec c.ct != serverRespCodec c.ct && !(c.respEmpty && serverRespCodec c.ct == "binary") then "content_type_codec_mismatch"
   else if c.pathDot then "path_value_dot_segment"
   else if !bodyVerb && c.requiredZero.any id then "required_query_zero_value"
   else if bodyVerb && !c.requiredZero.isEmpty then "required_query_on_body_verb"
